@@ -237,10 +237,10 @@ var scF = &kit.F{Name: "bls.Scalar", P: fptower.R, Bits: 256, C: 1, Reduced: tru
 func TestC12PrimeFields(t *testing.T) {
 	defer vlib.Done()
 	t.Run("Fp", func(t *testing.T) {
-		vlib.Check(t, vlib.N(12000, 100000), func(t *rapid.T) { checkPrime[ff.Fp](t, fpF, ff.FpSize, ff.FpOrder()) })
+		vlib.Check(t, vlib.N(12000, 50000), func(t *rapid.T) { checkPrime[ff.Fp](t, fpF, ff.FpSize, ff.FpOrder()) })
 	})
 	t.Run("Scalar", func(t *testing.T) {
-		vlib.Check(t, vlib.N(12000, 100000), func(t *rapid.T) { checkPrime[ff.Scalar](t, scF, ff.ScalarSize, ff.ScalarOrder()) })
+		vlib.Check(t, vlib.N(12000, 50000), func(t *rapid.T) { checkPrime[ff.Scalar](t, scF, ff.ScalarSize, ff.ScalarOrder()) })
 	})
 }
 
@@ -257,7 +257,7 @@ func TestC12FpFp2Extras(t *testing.T) {
 	defer vlib.Done()
 	p := fptower.P
 	half := new(big.Int).Rsh(p, 1) // (p−1)/2
-	vlib.Check(t, vlib.N(5000, 50000), func(t *rapid.T) {
+	vlib.Check(t, vlib.N(5000, 25000), func(t *rapid.T) {
 		op := rapid.SampledFrom([]string{"Fp.Sqrt", "Fp.IsNegative", "Fp.Sgn0", "Fp.ExpVarTime", "Fp.CMov",
 			"Fp2.Sqrt", "Fp2.Sqrt", "Fp2.IsNegative", "Fp2.Sgn0", "Fp2.ExpVarTime", "Fp2.Marshal", "Fp2.SetString"}).Draw(t, "op")
 		typ := op[:len(op)-len(op[3:])]
@@ -422,7 +422,7 @@ func TestC12FpFp2Extras(t *testing.T) {
 func TestC12Fp12Extras(t *testing.T) {
 	defer vlib.Done()
 	absX := new(big.Int).Neg(fptower.X)
-	vlib.Check(t, vlib.N(700, 7000), func(t *rapid.T) {
+	vlib.Check(t, vlib.N(700, 3000), func(t *rapid.T) {
 		op := rapid.SampledFrom([]string{"Fp6.Marshal", "Fp12.Marshal", "Fp12.Exp", "Fp12Cubic.Convert", "Fp12Cubic.MulLine",
 			"Cyclo6.Easy", "Cyclo6.Sqr", "Cyclo6.Sqr", "Cyclo6.MulInvFrob", "Cyclo6.PowToX", "URoot.Hard", "URoot.Exp"}).Draw(t, "op")
 		xe, xc := ringFp12.draw(t, "x")
